@@ -183,6 +183,8 @@ class EngineBase:
             return T(BOOL, "true")
         if isinstance(t, EmptyV):
             return T(BOOL, "false")
+        if getattr(t, "tr", None):
+            return T(BOOL, t.tr)
         s = t.sort
         if s == BOOL:
             return t
